@@ -22,6 +22,7 @@ import (
 	"path/filepath"
 	"reflect"
 	"strings"
+	"sync"
 	"unicode/utf8"
 
 	samlxml "github.com/zitadel/saml/pkg/provider/xml"
@@ -569,6 +570,38 @@ func c18Codec(c *Ctx) {
 					d2 := map[string]interface{}{"encoding": bad, "size": n, "returned_bytes": len(out)}
 					c.issue(Issue{Kind: "violation", What: "an unrecognised encoding identifier was accepted", Site: "xml.InflateAndDecode", Class: "unknown-encoding-accepted", Detail: d2})
 				}
+			}
+		}
+	}
+	// the same as a batch: encode several messages first, keep the results, then decode them all - every result must
+	// still decode to its own message (a result that aliases memory of a later call would not), also concurrently
+	for round := 0; round < 3; round++ {
+		var msgs, encs [][]byte
+		for i := 0; i < 12; i++ {
+			m := []byte(fmt.Sprintf("<m round=\"%d\" n=\"%02d\">%s</m>", round, i, strings.Repeat(string(rune('a'+i)), 40+round)))
+			msgs = append(msgs, m)
+		}
+		if round == 2 {
+			var wg sync.WaitGroup
+			encs = make([][]byte, len(msgs))
+			for i := range msgs {
+				wg.Add(1)
+				go func(i int) { defer wg.Done(); encs[i], _ = samlxml.DeflateAndBase64(msgs[i]) }(i)
+			}
+			wg.Wait()
+		} else {
+			for _, m := range msgs {
+				e, _ := samlxml.DeflateAndBase64(m)
+				encs = append(encs, e)
+			}
+		}
+		for i, e := range encs {
+			c.rep.Evaluations++
+			got, err := samlxml.InflateAndDecode(samlxml.EncodingDeflate, true, string(e))
+			if err != nil || !bytes.Equal(got, msgs[i]) {
+				c.issue(Issue{Kind: "violation", What: fmt.Sprintf("a DeflateAndBase64 result kept while %d further messages were encoded no longer decodes to its own message (err=%v)", len(encs)-i-1, err),
+					Site: "xml.DeflateAndBase64", Class: "codec-roundtrip-batch", Detail: map[string]interface{}{"round": round, "index": i, "expected": string(msgs[i]), "decoded": string(got)}})
+				break
 			}
 		}
 	}
